@@ -1,0 +1,120 @@
+//go:build verif
+
+package ordered
+
+// Machine-checked contracts for the deductive checks in /verif (see
+// /verif/DESIGN.md). This file contains comments only; it is compiled solely
+// under the "verif" build tag and adds no code.
+
+//@ ghost func live(a []Tuple[K,V], n int) int := n <= 0 ? 0 : live(a, n-1) + (a[n-1].deleted ? 0 : 1)
+
+//@ pred wf(m) :=
+//@   (forall k K :: {has(m.index,k)} has(m.index,k) ==>
+//@       0 <= m.index[k] && m.index[k] < len(m.items) &&
+//@       !m.items[m.index[k]].deleted && m.items[m.index[k]].Key == k) &&
+//@   (forall i int :: {m.items[i]} 0 <= i && i < len(m.items) && !m.items[i].deleted ==>
+//@       has(m.index, m.items[i].Key) && m.index[m.items[i].Key] == i) &&
+//@   len(m.index) == live(m.items, len(m.items))
+
+//@ func (*Map).Len
+//@   assigns nothing
+//@   ensures [nil] m == nil ==> ret == 0
+//@   ensures [len] m != nil ==> ret == len(m.index)
+
+//@ func (*Map).IsZero
+//@   assigns nothing
+//@   ensures [zero] ret == (m == nil || len(m.index) == 0)
+
+//@ func (*Map).Get
+//@   requires m != nil ==> wf(m)
+//@   assigns nothing
+//@   ensures [found] ret1 == (m != nil && has(m.index, k))
+//@   ensures [value] ret1 ==> ret0 == m.items[m.index[k]].Value
+//@   ensures [absent] !ret1 ==> ret0 == zero(V)
+
+//@ func (*Map).Contains
+//@   assigns nothing
+//@   ensures [found] ret == (m != nil && has(m.index, k))
+
+//@ lemma live_update induction n: forall a []Tuple[K,V], i int, t Tuple[K,V], n int :: {live(update(a,i,t), n)}
+//@     live(update(a,i,t), n) == live(a,n) + ((0 <= i && i < n) ? ((t.deleted ? 0 : 1) - (a[i].deleted ? 0 : 1)) : 0)
+//@ lemma live_bounds induction n: forall a []Tuple[K,V], n int :: {live(a,n)} 0 <= live(a,n) && (n >= 0 ==> live(a,n) <= n)
+//@ lemma live_mono induction y: forall a []Tuple[K,V], x int, y int :: {live(a,x), live(a,y)}
+//@     0 <= x && x < y ==> live(a,x) + (a[x].deleted ? 0 : 1) <= live(a,y)
+
+//@ func (*Map).Set
+//@   requires m != nil && wf(m)
+//@   assigns m.index, m.items, *m.index, m.items[..]
+//@   ensures [wf] wf(m)
+//@   ensures [dom] forall k2 K :: {has(m.index,k2)} has(m.index,k2) == (old(has(m.index,k2)) || k2 == k)
+//@   ensures [present] old(has(m.index,k)) ==> len(m.items) == old(len(m.items)) &&
+//@       (forall i int :: {m.items[i]} 0 <= i && i < len(m.items) ==>
+//@           m.items[i].Key == old(m.items[i].Key) && m.items[i].deleted == old(m.items[i].deleted) &&
+//@           (i != old(m.index[k]) ==> m.items[i].Value == old(m.items[i].Value))) &&
+//@       m.items[old(m.index[k])].Value == v &&
+//@       (forall k2 K :: {m.index[k2]} has(m.index,k2) ==> m.index[k2] == old(m.index[k2]))
+//@   ensures [absent] !old(has(m.index,k)) ==> len(m.items) == old(len(m.items)) + 1 &&
+//@       (forall i int :: {m.items[i]} 0 <= i && i < old(len(m.items)) ==> m.items[i] == old(m.items[i])) &&
+//@       m.items[old(len(m.items))].Key == k && m.items[old(len(m.items))].Value == v && !m.items[old(len(m.items))].deleted &&
+//@       m.index[k] == old(len(m.items)) &&
+//@       (forall k2 K :: {m.index[k2]} k2 != k && has(m.index,k2) ==> m.index[k2] == old(m.index[k2]))
+
+//@ func (*Map).Replace
+//@   requires m != nil && wf(m)
+//@   assigns m.index, m.items, *m.index, m.items[..]
+//@   ensures [wf] wf(m)
+//@   ensures [dom] forall k2 K :: {has(m.index,k2)} has(m.index,k2) == (k2 == new || (old(has(m.index,k2)) && k2 != old))
+//@   ensures [len] len(m.items) == old(len(m.items)) + (old(has(m.index,old)) ? 0 : 1)
+//@   ensures [slot] let idx := (old(has(m.index,old)) ? old(m.index[old]) : old(len(m.items))) in
+//@       m.index[new] == idx && m.items[idx].Key == new && m.items[idx].Value == v && !m.items[idx].deleted
+//@   ensures [others] forall i int :: {m.items[i]} 0 <= i && i < old(len(m.items)) && (old(has(m.index,old)) ==> i != old(m.index[old])) ==>
+//@       m.items[i].Key == old(m.items[i].Key) && m.items[i].Value == old(m.items[i].Value) &&
+//@       m.items[i].deleted == (old(m.items[i].deleted) || (new != old && old(has(m.index,new)) && i == old(m.index[new])))
+//@   ensures [index] forall k2 K :: {m.index[k2]} k2 != new && has(m.index,k2) ==> m.index[k2] == old(m.index[k2])
+//@   ensures [inplace] old(has(m.index,old)) ==> m.items == old(m.items)
+
+//@ func (*Map).compact
+//@   requires m != nil && m.index != nil && wf(m)
+//@   assigns m.items, *m.index
+//@   ensures [wf] wf(m)
+//@   ensures [dom] forall k2 K :: {has(m.index,k2)} has(m.index,k2) == old(has(m.index,k2))
+//@   ensures [dense] len(m.items) == old(len(m.index)) && len(m.index) == old(len(m.index)) &&
+//@       (forall y int :: {m.items[y]} 0 <= y && y < len(m.items) ==> !m.items[y].deleted) &&
+//@       (forall y int :: {live(m.items, y)} 0 <= y && y <= len(m.items) ==> live(m.items, y) == y)
+//@   ensures [view] forall x int :: {old(m.items[x])} 0 <= x && x < old(len(m.items)) && !old(m.items[x].deleted) ==>
+//@       m.index[old(m.items[x].Key)] == old(live(m.items, x)) &&
+//@       m.items[old(live(m.items, x))].Key == old(m.items[x].Key) &&
+//@       m.items[old(live(m.items, x))].Value == old(m.items[x].Value)
+//@   loop 0
+//@     assigns *m.index, pairs[..]
+//@     invariant [bounds] 0 <= $idx && $idx <= len(m.items) && m.items == old(m.items) && m.index == old(m.index)
+//@     invariant [count] len(pairs) == live(m.items, $idx)
+//@     invariant [rank] forall y int :: {live(pairs, y)} 0 <= y && y <= len(pairs) ==> live(pairs, y) == y
+//@     invariant [fresh] fresh(pairs)
+//@     invariant [dense] forall y int :: {pairs[y]} 0 <= y && y < len(pairs) ==> !pairs[y].deleted
+//@     invariant [dom] (forall k2 K :: {has(m.index,k2)} has(m.index,k2) == old(has(m.index,k2))) && len(m.index) == old(len(m.index))
+//@     invariant [fwd] forall k2 K :: {has(m.index,k2)} has(m.index,k2) ==>
+//@         (old(m.index[k2]) < $idx ==> 0 <= m.index[k2] && m.index[k2] < len(pairs) &&
+//@              pairs[m.index[k2]].Key == k2 && pairs[m.index[k2]].Value == m.items[old(m.index[k2])].Value) &&
+//@         (old(m.index[k2]) >= $idx ==> m.index[k2] == old(m.index[k2]))
+//@     invariant [back] forall y int :: {pairs[y]} 0 <= y && y < len(pairs) ==>
+//@         let ky := pairs[y].Key in has(m.index, ky) && m.index[ky] == y && old(m.index[ky]) < $idx
+//@     invariant [rankof] forall x int :: {live(m.items, x)} 0 <= x && x < $idx && !m.items[x].deleted ==>
+//@         m.index[m.items[x].Key] == live(m.items, x)
+//@     decreases len(m.items) - $idx
+
+//@ func (*Map).Delete
+//@   requires m != nil ==> wf(m)
+//@   assigns m.items, *m.index, m.items[..]
+//@   ensures [wf] m != nil ==> wf(m)
+//@   ensures [noop] m != nil && !old(has(m.index,k)) ==> m.items == old(m.items) && len(m.index) == old(len(m.index)) &&
+//@       (forall i int :: {m.items[i]} 0 <= i && i < len(m.items) ==> m.items[i] == old(m.items[i])) &&
+//@       (forall k2 K :: {has(m.index,k2)} has(m.index,k2) == old(has(m.index,k2)) && m.index[k2] == old(m.index[k2]))
+//@   ensures [dom] m != nil ==> forall k2 K :: {has(m.index,k2)} has(m.index,k2) == (old(has(m.index,k2)) && k2 != k)
+//@   ensures [len] m != nil && old(has(m.index,k)) ==> len(m.index) == old(len(m.index)) - 1
+//@   ensures [view] m != nil && old(has(m.index,k)) ==>
+//@       forall x int :: {old(m.items[x])} 0 <= x && x < old(len(m.items)) && !old(m.items[x].deleted) && x != old(m.index[k]) ==>
+//@         let y := m.index[old(m.items[x].Key)] in
+//@           0 <= y && y < len(m.items) && !m.items[y].deleted &&
+//@           m.items[y].Key == old(m.items[x].Key) && m.items[y].Value == old(m.items[x].Value) &&
+//@           live(m.items, y) == old(live(m.items, x)) - (x > old(m.index[k]) ? 1 : 0)
